@@ -1,3 +1,8 @@
+#[cfg(feature = "verif_hooks")]
+use crate::verif_hooks::{block_on, AtomicI8};
+#[cfg(feature = "verif_hooks")]
+use futures::Future;
+#[cfg(not(feature = "verif_hooks"))]
 use futures::{executor::block_on, Future};
 
 use crate::{
@@ -5,6 +10,12 @@ use crate::{
   observer::Observer,
   scheduler::NormalReturn,
 };
+#[cfg(feature = "verif_hooks")]
+use std::{
+  sync::{atomic::Ordering, Arc},
+  task::Poll,
+};
+#[cfg(not(feature = "verif_hooks"))]
 use std::{
   sync::{
     atomic::{AtomicI8, Ordering},
@@ -113,6 +124,8 @@ impl Future for StatusFuture {
     if self.0.is_closed() {
       Poll::Ready(NormalReturn::new(()))
     } else {
+      #[cfg(feature = "verif_hooks")]
+      crate::verif_hooks::sched_point();
       self.0.waker.register(cx.waker());
       Poll::Pending
     }
